@@ -189,6 +189,12 @@ type UnitSpec struct {
 	// Setup is called on the evaluator after inputs are bound.
 	Setup func(p *sx.Path, ev *spec.Eval)
 	Hooks func(m *sx.Machine)
+	InstanceName string
+	// Prepare runs concrete set-up code once; the exploration starts from
+	// the heap it leaves behind.
+	Prepare func(p *sx.Path)
+	// CallHook replaces calls by callee contracts while this unit runs.
+	CallHook func(p *sx.Path, fn *ssa.Function, args []sx.Val, site ssa.Instruction) (sx.Val, bool)
 	Replay func(o *vc.Outcome) string
 }
 
@@ -201,13 +207,29 @@ func (us *UnitSpec) Unit() *vc.Unit {
 	}
 	fn := c.Func(fname)
 	ct := us.Contract
-	u := &vc.Unit{Func: fname, Instance: instName(us.Enum), Bounded: us.Bounded, MaxPaths: us.MaxPaths, Canary: us.Canary, Replay: us.Replay}
+	inst := instName(us.Enum)
+	if us.InstanceName != "" {
+		inst = us.InstanceName
+	}
+	u := &vc.Unit{Func: fname, Instance: inst, Bounded: us.Bounded, MaxPaths: us.MaxPaths, Canary: us.Canary, Replay: us.Replay}
 	if u.MaxPaths == 0 {
 		u.MaxPaths = 20000
 	}
 	u.Run = func(m *sx.Machine) ([]sx.PathResult, error) {
 		var evalErr error
-		res, err := m.Explore(u.MaxPaths, nil, func(p *sx.Path) sx.Val {
+		base, baseNext := m.BaseHeap, m.BaseNext
+		savedHook := m.CallHook
+		defer func() { m.CallHook = savedHook }()
+		m.CallHook = nil
+		if us.Prepare != nil {
+			h, n, perr := m.Prepare(us.Prepare)
+			if perr != nil {
+				return nil, fmt.Errorf("set-up of %s failed: %v", fname, perr)
+			}
+			base, baseNext = h, n
+		}
+		m.CallHook = us.CallHook
+		res, err := m.ExploreFrom(base, baseNext, u.MaxPaths, nil, func(p *sx.Path) sx.Val {
 			defer func() {
 				if r := recover(); r != nil {
 					if ee, ok := r.(spec.EvalError); ok {
